@@ -349,6 +349,11 @@ func evalForm(mode string, form int, a, b vp.Val) (t tri, detail string) {
 	if !ok {
 		return triNone, ""
 	}
+	return evalSrc(formSrc(form, ta, tb), vars)
+}
+
+// evalSrc runs one program on a fresh environment and reads a boolean.
+func evalSrc(src string, vars map[string]interface{}) (t tri, detail string) {
 	defer func() {
 		if r := recover(); r != nil {
 			t, detail = triErr, fmt.Sprintf("panic: %v", r)
@@ -363,7 +368,7 @@ func evalForm(mode string, form int, a, b vp.Val) (t tri, detail string) {
 	for _, n := range names {
 		e.Define(n, vars[n])
 	}
-	v, err := vm.Execute(e, nil, formSrc(form, ta, tb))
+	v, err := vm.Execute(e, nil, src)
 	if err != nil {
 		return triErr, "error: " + err.Error()
 	}
@@ -402,6 +407,7 @@ type rcase struct {
 	B    vp.Val `json:"b"`
 	BC   string `json:"b_class"`
 	Law  string `json:"law"`
+	List int    `json:"list,omitempty"` // index into listKinds, for law "typed-in"
 }
 
 type finding struct {
@@ -471,9 +477,16 @@ func run(c *common.Ctx) *common.Result {
 		modes = modesThorough
 	}
 	n := len(p)
+	type tfinding struct {
+		f    finding
+		mode string
+		j    int
+		lk   int
+	}
 	type row struct {
 		o [][]obs // [mode][j]
 		d [][][nForms]string
+		t []tfinding // typed-list `in` findings, in (j, list kind, mode) order
 	}
 	rows := make([]row, n)
 	var capped int32
@@ -507,6 +520,27 @@ func run(c *common.Ctx) *common.Result {
 				}
 			}
 		}
+		// `in` over typed lists (typed.go)
+		for j := 0; j < n; j++ {
+			for li, lk := range listKinds {
+				for _, m := range modesQuick {
+					fs, evals, cs := typedJudge(m, lk, p[i], p[j])
+					if evals == 0 {
+						continue
+					}
+					res.Add("evaluations", int64(evals))
+					res.Add("evaluations:in typed list", 1)
+					res.Add("evaluations:== typed element", 1)
+					if res.Distinct("cases", "typed|"+lk.String()+"|"+cs) {
+						res.Add("distinct_nontrivial", int64(evals))
+					}
+					res.Add("typed_list_pairs_judged", 1)
+					for _, f := range fs {
+						r.t = append(r.t, tfinding{f, m, j, li})
+					}
+				}
+			}
+		}
 		rows[i] = r
 	})
 	if atomic.LoadInt32(&capped) != 0 {
@@ -530,6 +564,12 @@ func run(c *common.Ctx) *common.Result {
 						Replay: rcase{Mode: m, A: p[i].v, AC: p[i].class, B: p[j].v, BC: p[j].class, Law: f.law}})
 				}
 			}
+		}
+	}
+	for i := 0; i < n; i++ {
+		for _, t := range rows[i].t {
+			res.Violate(common.Violation{Class: t.f.class, Case: t.f.cs, Detail: t.f.detail,
+				Replay: rcase{Mode: t.mode, A: p[i].v, AC: p[i].class, B: p[t.j].v, BC: p[t.j].class, Law: t.f.law, List: t.lk}})
 		}
 	}
 	res.Add("pool_size", int64(n))
@@ -574,6 +614,7 @@ func coverage(c *common.Ctx, r *common.Result) map[string]interface{} {
 		"ordered_pairs_judged":        r.Counts["ordered_pairs_judged"],
 		"pairs_with_defined_relation": r.Counts["pairs_with_defined_relation"],
 		"pairs_equal":                 r.Counts["pairs_equal"],
+		"typed_list_pairs_judged":     r.Counts["typed_list_pairs_judged"],
 		"evaluations_per_form":        per,
 		"no_boolean_results":          r.Counts["no_boolean"],
 	}
@@ -586,6 +627,26 @@ func replay(c *common.Ctx, path string) int {
 		return 2
 	}
 	a, b := entry{rc.A, rc.AC}, entry{rc.B, rc.BC}
+	if rc.Law == "typed-in" {
+		if rc.List < 0 || rc.List >= len(listKinds) {
+			fmt.Println("bad list kind in replay")
+			return 2
+		}
+		lk := listKinds[rc.List]
+		in1, eq1, _, cs, _ := typedObs(rc.Mode, lk, a.v, b.v)
+		in2, eq2, _, _, _ := typedObs(rc.Mode, lk, a.v, b.v)
+		if in1 != in2 || eq1 != eq2 {
+			fmt.Println("NONDETERMINISTIC replay")
+			return 2
+		}
+		fmt.Printf("%s  (%s)\n`a in l` %v, `a == l[0]` %v\n", cs, lk, in1, eq1)
+		if (eq1 == triTrue || eq1 == triFalse) && in1 != eq1 {
+			fmt.Println("replay: still violated")
+			return 1
+		}
+		fmt.Println("replay: the law holds")
+		return 0
+	}
 	var first string
 	for round := 0; round < 2; round++ {
 		ab, det := observe(rc.Mode, a, b)
@@ -620,6 +681,7 @@ func init() {
 		ID: "C06", Level: "exploration", Run: run, Coverage: coverage, Replay: replay,
 		Assumptions: []string{
 			"values come from the stated pool (nil, 2 bools, 24 int64, 28 float64 incl. NaN/±Inf/±0, 20 strict decimal numerals, 14 lenient spellings, 15 non-numeral strings, 17+12 untyped slices/maps of depth <= 2; thorough adds 9 depth-3 containers); ALL ordered pairs",
+			"`in` is additionally checked over typed lists ([]int64, []float64, []string; as typed literals and as host-defined slices) holding one pool value representable in the element type: `a in l` must equal `a == l[0]` as the VM itself evaluates it",
 			"operands reach the relation as literals and as variables (thorough: also mixed, and behind interface-typed slice elements)",
 			"the reference relation is compared only where the property defines it: nil; same primitive type; int vs float (against the VM's own a<=b && a>=b); strict decimal numerals -?(0|[1-9][0-9]*)(.[0-9]+)? vs numbers when the exact and the nearest-float64 readings agree; strings that are not decimal numerals (hex, binary, embedded blanks, words) vs numbers; slices vs slices and maps vs maps whose corresponding leaves have identical primitive types",
 			"laws only (under-determined): bool vs non-bool, container vs primitive, slice vs map, mixed numeric/string leaves inside containers, lenient spellings (1e3, inf, nan, +1, 1_0, 01, .5, 5., -0), NaN inside containers (not generated)",
